@@ -20,7 +20,7 @@ META = {
             'tools/s2c/gzip.py + crash.py (regex translation of calculateCRC32/compressFile); extraction (ExtrOcamlBasic) and '
             'ocaml/drv_gzip.ml; harness/h_gzip.cpp, h_crash.cpp; Python zlib/gzip and gzip(1) as independent decoders; strace. '
             'Modelled, not verified: zlib deflate/inflate (Section hypotheses), qCompress framing (validated on samples), '
-            'QFile buffering, toLocal8Bit (UTF-8 here, so file bytes are always valid UTF-8). Empty input files are outside '
+            'QFile buffering, toLocal8Bit (UTF-8 here; arbitrary bytes enter through pre-existing active files). Empty input files are outside '
             '(rotate() is only reached with size > 0; qCompress of empty data is 4 bytes and the body would be empty).',
     'design_ref': 'DESIGN.md section 4, C08',
     'engine': 'coq+extraction+harness',
@@ -85,6 +85,36 @@ def gen_records(kind, size, rseed):
     return recs
 
 
+RAW_KINDS = ('urandom', 'crlf', 'zero', 'ff', 'badutf8', 'mixed')
+
+
+def gen_raw(kind, size, rseed):
+    """arbitrary bytes for a pre-existing active file (written by an earlier run or another program)"""
+    rng = random.Random(rseed)
+    if kind == 'urandom':
+        return rng.randbytes(size)
+    if kind == 'zero':
+        return b'\0' * size
+    if kind == 'ff':
+        return b'\xff' * size
+    if kind == 'crlf':
+        out = bytearray()
+        while len(out) < size:
+            out += rng.choice(WORDS).encode() + rng.choice((b'\r\n', b'\r\n', b'\r', b'\n\r', b' \r \n', b'\r\r\n'))
+        return bytes(out[:size - 1]) + b'\r' if size > 0 else b''
+    if kind == 'badutf8':
+        frag = (b'\xc3', b'\xe2\x82', b'\xf0\x9f\x98', b'\x80', b'\xbf\xbf', b'\xc0\xaf', b'\xed\xa0\x80', b'\xf8\x88', b'ok\n', b'\xfe\xff')
+        out = bytearray()
+        while len(out) < size:
+            out += rng.choice(frag)
+        return bytes(out[:size])
+    out = bytearray()                      # mixed: runs of everything, incl. already-compressed data
+    while len(out) < size:
+        k = rng.randint(1, 5000)
+        out += rng.choice((rng.randbytes(k), b'\0' * k, b'\xff' * k, b'line\r\n' * (k // 6 + 1), zlib.compress(rng.randbytes(k // 2 + 1))))
+    return bytes(out[:size])
+
+
 def content_of(recs):
     return b''.join(r.encode('utf-8') + b'\n' for r in recs)
 
@@ -94,7 +124,14 @@ def run_case(impl, case):
     d = tempfile.mkdtemp(prefix='c08_', dir='/tmp')
     logdir = os.path.join(d, 'log')
     lines = []
-    if case['mode'] == 'startup':
+    if case['mode'] == 'raw':
+        # the active file exists already, with arbitrary bytes; a sink with RotationOnStartup|Compression takes it over
+        os.makedirs(logdir)
+        with open(os.path.join(logdir, 'app.log'), 'wb') as f:
+            f.write(case['raw'])
+        lines += ['W 7a']
+        args = [logdir, '0', str(case.get('N', 0)), '5', 'u']
+    elif case['mode'] == 'startup':
         lines += ['w ' + r.encode('utf-8').hex() for r in case['records']]
         lines += ['R 0 %d 5' % case.get('N', 0), 'W 7a']
         args = [logdir, '0', str(case.get('N', 0)), '0', 'u']
@@ -182,8 +219,19 @@ def make_cases(chk):
         kind = rng.choice(('text', 'random7', 'unicode', 'zeros'))
         cases.append({'mode': 'size', 'kind': kind, 'size': rng.choice((6000, 20000, 40000)), 'L': rng.choice((64, 1000, 8192, 8193, 16384)),
                       'N': 0, 'rseed': rng.randrange(1 << 30)})
+    # pre-existing active files with ANY bytes, rotated and compressed at start-up
+    raw = [('urandom', 65536), ('urandom', 65537), ('urandom', 8193), ('urandom', 1), ('crlf', 300), ('crlf', 70000),
+           ('ff', 65536), ('zero', 100000), ('badutf8', 8192), ('mixed', 131073)]
+    if thorough:
+        raw = [(k, n) for k in RAW_KINDS for n in (1, 100, 8191, 8192, 8193, 65535, 65536, 65537, 100000)]
+        raw += [('urandom', (1 << 20) + 1), ('mixed', 3 * (1 << 20) + 5), ('crlf', (1 << 20) + 1), ('urandom', 2 * 65536), ('urandom', 2 * 65536 + 1)]
+    for kind, n in raw:
+        cases.append({'mode': 'raw', 'kind': kind, 'size': n, 'rseed': rng.randrange(1 << 30)})
     for c in cases:
-        c['records'] = gen_records(c['kind'], c['size'], c['rseed'])
+        if c['mode'] == 'raw':
+            c['raw'] = gen_raw(c['kind'], c['size'], c['rseed']); c['records'] = []
+        else:
+            c['records'] = gen_records(c['kind'], c['size'], c['rseed'])
     return cases
 
 
@@ -191,8 +239,12 @@ def describe(c, with_records=False):
     d = {k: c[k] for k in ('mode', 'size', 'rseed', 'L', 'N') if k in c}
     d['content'] = c['kind']
     if with_records and c['size'] <= 4096:
-        d['records_utf8_hex'] = [r.encode('utf-8').hex() for r in c['records']]
-    d['how'] = ("records = checks.c08.gen_records(content, size, rseed); startup mode: write them with rotation off, restart the sink with "
+        if c['mode'] == 'raw':
+            d['raw_hex'] = c['raw'].hex()
+        else:
+            d['records_utf8_hex'] = [r.encode('utf-8').hex() for r in c['records']]
+    d['how'] = ("raw mode: app.log pre-written with checks.c08.gen_raw(content, size, rseed), then a sink with RotationOnStartup|Compression writes 'z'; "
+                "records = checks.c08.gen_records(content, size, rseed); startup mode: write them with rotation off, restart the sink with "
                 "RotationOnStartup|Compression, write 'z'; size mode: Compression, max size L")
     return d
 
@@ -205,8 +257,8 @@ def evaluate_case(c, res, tmp_paths):
         return out
     files, exp = res['files'], res['expected']
     gz = [f for f in files if f.endswith('.gz')]
-    if c['mode'] == 'startup':
-        want = content_of(c['records'])
+    if c['mode'] in ('startup', 'raw'):
+        want = c['raw'] if c['mode'] == 'raw' else content_of(c['records'])
         if len(gz) != 1:
             out['bad'].append(('no-gz', 'expected exactly one .gz after the start-up rotation, directory has %s' % sorted(files)))
         for g in gz:
@@ -336,7 +388,8 @@ def run():
     chk.assumptions = ['inflate (deflate d ++ rest) = Some (d, rest) for zlib (checked on every sampled file with Python zlib.decompressobj(-15))',
                        'a deflate stream is never empty; the zlib header is two bytes; qCompress = be32 length ++ zlib stream (checked on samples)',
                        'file bytes are < 256 (wf_bytes); the rotated file is non-empty (rotate() is reached only with size > 0)',
-                       'toLocal8Bit is UTF-8 in this environment, so sampled contents are valid UTF-8 (incl. NUL, control bytes, newlines)']
+                       'records written through the sink are UTF-8 here (toLocal8Bit), incl. NUL, control bytes, newlines; ARBITRARY bytes (random, CR/CRLF, 0x00/0xFF runs, '
+                       'invalid UTF-8, already-compressed data) are covered by pre-existing active files rotated and compressed at start-up']
     chk.proof(vlib.proof_leg('Properties_C08', ['gzip']))
     model = vlib.build_model('gzip')
     impl = vlib.build_harness('gzip')
@@ -423,8 +476,8 @@ def run():
             'rule': 'one evaluation = one .gz written by the real sink (header+trailer vs model, body inflated by Python zlib -15 vs the '
                     'replaced file, gzip.decompress, gzip -t, extracted gunzip with that inflate result) + qCompress framing samples + '
                     'kill-before-unlink runs; non-trivial = distinct content of >= 2 bytes',
-            'kinds': {k: sum(1 for c in cases if c['kind'] == k) for k in KINDS},
-            'modes': {m: sum(1 for c in cases if c['mode'] == m) for m in ('startup', 'size')},
+            'kinds': {k: sum(1 for c in cases if c['kind'] == k) for k in KINDS + RAW_KINDS},
+            'modes': {m: sum(1 for c in cases if c['mode'] == m) for m in ('startup', 'size', 'raw')},
             'size_histogram': {'1': sum(1 for s in sizes if s == 1), '2-8191': sum(1 for s in sizes if 2 <= s < 8192),
                                '8192': sum(1 for s in sizes if s == 8192), '8193-65535': sum(1 for s in sizes if 8192 < s < 65536),
                                '65536': sum(1 for s in sizes if s == 65536), '65537-1MiB': sum(1 for s in sizes if 65536 < s < (1 << 20)),
@@ -454,7 +507,10 @@ def replay(path):
     model = vlib.build_model('gzip'); impl = vlib.build_harness('gzip')
     kind = c['content']
     case = {'mode': c['mode'], 'kind': kind, 'size': c['size'], 'rseed': c['rseed'], 'L': c.get('L', 0), 'N': c.get('N', 0)}
-    if r.get('records_utf8_hex'):
+    if c['mode'] == 'raw':
+        case['raw'] = bytes.fromhex(r['raw_hex']) if r.get('raw_hex') else gen_raw(kind, c['size'], c['rseed'])
+        case['records'] = []
+    elif r.get('records_utf8_hex'):
         case['records'] = [bytes.fromhex(h).decode('utf-8') for h in r['records_utf8_hex']]
     else:
         # the content kind is stored under 'kind' of the case description
